@@ -19,6 +19,7 @@ CONSTANTS Feeds, OpReads, Protocol      \* Feeds: the set of feeds explored in o
     Closes \in {1, 2},
     CloseUnblocks \in {"eof", "err", "stay"},
     Netconf \in BOOLEAN,
+    HasOp \in BOOLEAN,                \* an operation is in flight when Close is called
     errsClosed = FALSE,   \* v0: channel.Errs has been closed
     errsWait   = FALSE,   \* reader parked in  c.Errs <- err
     doneWait   = FALSE,   \* v0: helper parked in  c.done <- struct{}{}
@@ -39,7 +40,8 @@ CONSTANTS Feeds, OpReads, Protocol      \* Feeds: the set of feeds explored in o
     closeRet   = 0;
 
   define {
-    V1 == Protocol = "v1"
+    V1 == Protocol \in {"v1", "v2"}
+    V2 == Protocol = "v2"            \* v1 + an operation in flight also watches the done signal (fixes a94e4ce, 3360717)
     DoneSignalled == IF V1 THEN doneClosed ELSE doneWait
   }
 
@@ -108,14 +110,22 @@ CONSTANTS Feeds, OpReads, Protocol      \* Feeds: the set of feeds explored in o
             };
   }
 
-  \* an in-flight CLI operation polling Channel.Read (only when not Netconf)
+  \* an in-flight CLI operation polling Channel.Read (only when not Netconf) whose device never answers: it ends when
+  \* Channel.Read reports an error (its own timer is far in the future)
   fair process (Op = "op")
-    variable k = 0;
+    variable opEnd = FALSE;
   {
-   O_loop:  while (k < OpReads /\ ~Netconf) {
-   O_errs:    if (errsWait) { errsWait := FALSE };                     \* select { case err := <-c.Errs }
-   O_flag:    k := k + 1;                                              \* read of the exited flag, then Dequeue
+   O_loop:  while (HasOp /\ ~Netconf /\ ~opEnd) {
+   O_errs:    if (errsWait) { errsWait := FALSE; opEnd := TRUE };      \* select { case err := <-c.Errs }
+   O_flag:    if (~opEnd /\ (exited \/ (V2 /\ doneClosed))) { opEnd := TRUE };   \* the exited flag (v2: and the done signal), then Dequeue
             };
+  }
+
+  \* an in-flight NETCONF rpc: select { d.errs, (v2) d.done, timer (far future), reply (never) }
+  fair process (NcOp = "ncop")
+  {
+   NO_wait: await ~(HasOp /\ Netconf) \/ ncErrsWait \/ (V2 /\ ncDoneClosed);
+            if (HasOp /\ Netconf /\ ncErrsWait) { ncErrsWait := FALSE };
   }
 
   \* netconf.Driver.read
@@ -140,30 +150,32 @@ CONSTANTS Feeds, OpReads, Protocol      \* Feeds: the set of feeds explored in o
 }
 *)
 \* BEGIN TRANSLATION
-VARIABLES pc, Feed, Closes, CloseUnblocks, Netconf, errsClosed, errsWait, 
-          doneWait, doneClosed, helperLive, helperDone, exited, tClosed, 
-          tCloses, implLock, peer, ncErrsWait, ncDoneWait, ncDoneClosed, 
-          ncExited, closedOnce, panic, closeRet
+VARIABLES pc, Feed, Closes, CloseUnblocks, Netconf, HasOp, errsClosed, 
+          errsWait, doneWait, doneClosed, helperLive, helperDone, exited, 
+          tClosed, tCloses, implLock, peer, ncErrsWait, ncDoneWait, 
+          ncDoneClosed, ncExited, closedOnce, panic, closeRet
 
 (* define statement *)
-V1 == Protocol = "v1"
+V1 == Protocol \in {"v1", "v2"}
+V2 == Protocol = "v2"
 DoneSignalled == IF V1 THEN doneClosed ELSE doneWait
 
-VARIABLES rerr, n, force, sawExited, k, gotErr
+VARIABLES rerr, n, force, sawExited, opEnd, gotErr
 
-vars == << pc, Feed, Closes, CloseUnblocks, Netconf, errsClosed, errsWait, 
-           doneWait, doneClosed, helperLive, helperDone, exited, tClosed, 
-           tCloses, implLock, peer, ncErrsWait, ncDoneWait, ncDoneClosed, 
-           ncExited, closedOnce, panic, closeRet, rerr, n, force, sawExited, 
-           k, gotErr >>
+vars == << pc, Feed, Closes, CloseUnblocks, Netconf, HasOp, errsClosed, 
+           errsWait, doneWait, doneClosed, helperLive, helperDone, exited, 
+           tClosed, tCloses, implLock, peer, ncErrsWait, ncDoneWait, 
+           ncDoneClosed, ncExited, closedOnce, panic, closeRet, rerr, n, 
+           force, sawExited, opEnd, gotErr >>
 
-ProcSet == {"reader"} \cup {"closer"} \cup {"helper"} \cup {"op"} \cup {"ncreader"}
+ProcSet == {"reader"} \cup {"closer"} \cup {"helper"} \cup {"op"} \cup {"ncop"} \cup {"ncreader"}
 
 Init == (* Global variables *)
         /\ Feed \in Feeds
         /\ Closes \in {1, 2}
         /\ CloseUnblocks \in {"eof", "err", "stay"}
         /\ Netconf \in BOOLEAN
+        /\ HasOp \in BOOLEAN
         /\ errsClosed = FALSE
         /\ errsWait = FALSE
         /\ doneWait = FALSE
@@ -189,13 +201,14 @@ Init == (* Global variables *)
         /\ force = FALSE
         /\ sawExited = FALSE
         (* Process Op *)
-        /\ k = 0
+        /\ opEnd = FALSE
         (* Process NcReader *)
         /\ gotErr = FALSE
         /\ pc = [self \in ProcSet |-> CASE self = "reader" -> "R_top"
                                         [] self = "closer" -> "C_loop"
                                         [] self = "helper" -> "H_idle"
                                         [] self = "op" -> "O_loop"
+                                        [] self = "ncop" -> "NO_wait"
                                         [] self = "ncreader" -> "N_top"]
 
 R_top == /\ pc["reader"] = "R_top"
@@ -210,22 +223,22 @@ R_top == /\ pc["reader"] = "R_top"
                           ELSE /\ pc' = [pc EXCEPT !["reader"] = "R_lock"]
                                /\ UNCHANGED << doneWait, helperLive, 
                                                helperDone >>
-         /\ UNCHANGED << Feed, Closes, CloseUnblocks, Netconf, errsClosed, 
-                         errsWait, doneClosed, exited, tClosed, tCloses, 
-                         implLock, peer, ncErrsWait, ncDoneWait, ncDoneClosed, 
-                         ncExited, closedOnce, panic, closeRet, rerr, n, force, 
-                         sawExited, k, gotErr >>
+         /\ UNCHANGED << Feed, Closes, CloseUnblocks, Netconf, HasOp, 
+                         errsClosed, errsWait, doneClosed, exited, tClosed, 
+                         tCloses, implLock, peer, ncErrsWait, ncDoneWait, 
+                         ncDoneClosed, ncExited, closedOnce, panic, closeRet, 
+                         rerr, n, force, sawExited, opEnd, gotErr >>
 
 R_lock == /\ pc["reader"] = "R_lock"
           /\ implLock = "free"
           /\ implLock' = "reader"
           /\ pc' = [pc EXCEPT !["reader"] = "R_read"]
-          /\ UNCHANGED << Feed, Closes, CloseUnblocks, Netconf, errsClosed, 
-                          errsWait, doneWait, doneClosed, helperLive, 
-                          helperDone, exited, tClosed, tCloses, peer, 
-                          ncErrsWait, ncDoneWait, ncDoneClosed, ncExited, 
+          /\ UNCHANGED << Feed, Closes, CloseUnblocks, Netconf, HasOp, 
+                          errsClosed, errsWait, doneWait, doneClosed, 
+                          helperLive, helperDone, exited, tClosed, tCloses, 
+                          peer, ncErrsWait, ncDoneWait, ncDoneClosed, ncExited, 
                           closedOnce, panic, closeRet, rerr, n, force, 
-                          sawExited, k, gotErr >>
+                          sawExited, opEnd, gotErr >>
 
 R_read == /\ pc["reader"] = "R_read"
           /\ peer # <<>> \/ tClosed
@@ -242,11 +255,12 @@ R_read == /\ pc["reader"] = "R_read"
                      /\ peer' = peer
           /\ implLock' = "free"
           /\ pc' = [pc EXCEPT !["reader"] = "R_chk"]
-          /\ UNCHANGED << Feed, Closes, CloseUnblocks, Netconf, errsClosed, 
-                          errsWait, doneWait, doneClosed, helperLive, 
-                          helperDone, exited, tClosed, tCloses, ncErrsWait, 
-                          ncDoneWait, ncDoneClosed, ncExited, closedOnce, 
-                          panic, closeRet, n, force, sawExited, k, gotErr >>
+          /\ UNCHANGED << Feed, Closes, CloseUnblocks, Netconf, HasOp, 
+                          errsClosed, errsWait, doneWait, doneClosed, 
+                          helperLive, helperDone, exited, tClosed, tCloses, 
+                          ncErrsWait, ncDoneWait, ncDoneClosed, ncExited, 
+                          closedOnce, panic, closeRet, n, force, sawExited, 
+                          opEnd, gotErr >>
 
 R_chk == /\ pc["reader"] = "R_chk"
          /\ IF rerr # "data"
@@ -264,22 +278,22 @@ R_chk == /\ pc["reader"] = "R_chk"
                                                           helperDone >>
                ELSE /\ pc' = [pc EXCEPT !["reader"] = "R_top"]
                     /\ UNCHANGED << doneWait, helperLive, helperDone >>
-         /\ UNCHANGED << Feed, Closes, CloseUnblocks, Netconf, errsClosed, 
-                         errsWait, doneClosed, exited, tClosed, tCloses, 
-                         implLock, peer, ncErrsWait, ncDoneWait, ncDoneClosed, 
-                         ncExited, closedOnce, panic, closeRet, rerr, n, force, 
-                         sawExited, k, gotErr >>
+         /\ UNCHANGED << Feed, Closes, CloseUnblocks, Netconf, HasOp, 
+                         errsClosed, errsWait, doneClosed, exited, tClosed, 
+                         tCloses, implLock, peer, ncErrsWait, ncDoneWait, 
+                         ncDoneClosed, ncExited, closedOnce, panic, closeRet, 
+                         rerr, n, force, sawExited, opEnd, gotErr >>
 
 R_eof == /\ pc["reader"] = "R_eof"
          /\ IF rerr = "eof"
                THEN /\ pc' = [pc EXCEPT !["reader"] = "R_exit"]
                ELSE /\ pc' = [pc EXCEPT !["reader"] = "R_send"]
-         /\ UNCHANGED << Feed, Closes, CloseUnblocks, Netconf, errsClosed, 
-                         errsWait, doneWait, doneClosed, helperLive, 
-                         helperDone, exited, tClosed, tCloses, implLock, peer, 
-                         ncErrsWait, ncDoneWait, ncDoneClosed, ncExited, 
-                         closedOnce, panic, closeRet, rerr, n, force, 
-                         sawExited, k, gotErr >>
+         /\ UNCHANGED << Feed, Closes, CloseUnblocks, Netconf, HasOp, 
+                         errsClosed, errsWait, doneWait, doneClosed, 
+                         helperLive, helperDone, exited, tClosed, tCloses, 
+                         implLock, peer, ncErrsWait, ncDoneWait, ncDoneClosed, 
+                         ncExited, closedOnce, panic, closeRet, rerr, n, force, 
+                         sawExited, opEnd, gotErr >>
 
 R_send == /\ pc["reader"] = "R_send"
           /\ IF ~V1 /\ errsClosed
@@ -289,11 +303,12 @@ R_send == /\ pc["reader"] = "R_send"
                 ELSE /\ errsWait' = TRUE
                      /\ pc' = [pc EXCEPT !["reader"] = "R_sent"]
                      /\ panic' = panic
-          /\ UNCHANGED << Feed, Closes, CloseUnblocks, Netconf, errsClosed, 
-                          doneWait, doneClosed, helperLive, helperDone, exited, 
-                          tClosed, tCloses, implLock, peer, ncErrsWait, 
-                          ncDoneWait, ncDoneClosed, ncExited, closedOnce, 
-                          closeRet, rerr, n, force, sawExited, k, gotErr >>
+          /\ UNCHANGED << Feed, Closes, CloseUnblocks, Netconf, HasOp, 
+                          errsClosed, doneWait, doneClosed, helperLive, 
+                          helperDone, exited, tClosed, tCloses, implLock, peer, 
+                          ncErrsWait, ncDoneWait, ncDoneClosed, ncExited, 
+                          closedOnce, closeRet, rerr, n, force, sawExited, 
+                          opEnd, gotErr >>
 
 R_sent == /\ pc["reader"] = "R_sent"
           /\ ~errsWait \/ (~V1 /\ errsClosed) \/ (V1 /\ doneClosed)
@@ -307,31 +322,32 @@ R_sent == /\ pc["reader"] = "R_sent"
                                 /\ UNCHANGED errsWait
                 ELSE /\ pc' = [pc EXCEPT !["reader"] = "R_top"]
                      /\ UNCHANGED << errsWait, panic >>
-          /\ UNCHANGED << Feed, Closes, CloseUnblocks, Netconf, errsClosed, 
-                          doneWait, doneClosed, helperLive, helperDone, exited, 
-                          tClosed, tCloses, implLock, peer, ncErrsWait, 
-                          ncDoneWait, ncDoneClosed, ncExited, closedOnce, 
-                          closeRet, rerr, n, force, sawExited, k, gotErr >>
+          /\ UNCHANGED << Feed, Closes, CloseUnblocks, Netconf, HasOp, 
+                          errsClosed, doneWait, doneClosed, helperLive, 
+                          helperDone, exited, tClosed, tCloses, implLock, peer, 
+                          ncErrsWait, ncDoneWait, ncDoneClosed, ncExited, 
+                          closedOnce, closeRet, rerr, n, force, sawExited, 
+                          opEnd, gotErr >>
 
 R_exit == /\ pc["reader"] = "R_exit"
           /\ exited' = TRUE
           /\ pc' = [pc EXCEPT !["reader"] = "R_dead"]
-          /\ UNCHANGED << Feed, Closes, CloseUnblocks, Netconf, errsClosed, 
-                          errsWait, doneWait, doneClosed, helperLive, 
-                          helperDone, tClosed, tCloses, implLock, peer, 
-                          ncErrsWait, ncDoneWait, ncDoneClosed, ncExited, 
+          /\ UNCHANGED << Feed, Closes, CloseUnblocks, Netconf, HasOp, 
+                          errsClosed, errsWait, doneWait, doneClosed, 
+                          helperLive, helperDone, tClosed, tCloses, implLock, 
+                          peer, ncErrsWait, ncDoneWait, ncDoneClosed, ncExited, 
                           closedOnce, panic, closeRet, rerr, n, force, 
-                          sawExited, k, gotErr >>
+                          sawExited, opEnd, gotErr >>
 
 R_dead == /\ pc["reader"] = "R_dead"
           /\ TRUE
           /\ pc' = [pc EXCEPT !["reader"] = "Done"]
-          /\ UNCHANGED << Feed, Closes, CloseUnblocks, Netconf, errsClosed, 
-                          errsWait, doneWait, doneClosed, helperLive, 
-                          helperDone, exited, tClosed, tCloses, implLock, peer, 
-                          ncErrsWait, ncDoneWait, ncDoneClosed, ncExited, 
-                          closedOnce, panic, closeRet, rerr, n, force, 
-                          sawExited, k, gotErr >>
+          /\ UNCHANGED << Feed, Closes, CloseUnblocks, Netconf, HasOp, 
+                          errsClosed, errsWait, doneWait, doneClosed, 
+                          helperLive, helperDone, exited, tClosed, tCloses, 
+                          implLock, peer, ncErrsWait, ncDoneWait, ncDoneClosed, 
+                          ncExited, closedOnce, panic, closeRet, rerr, n, 
+                          force, sawExited, opEnd, gotErr >>
 
 Reader == R_top \/ R_lock \/ R_read \/ R_chk \/ R_eof \/ R_send \/ R_sent
              \/ R_exit \/ R_dead
@@ -344,12 +360,12 @@ C_loop == /\ pc["closer"] = "C_loop"
                                       THEN /\ pc' = [pc EXCEPT !["closer"] = "NC_done"]
                                       ELSE /\ pc' = [pc EXCEPT !["closer"] = "C_errs"]
                 ELSE /\ pc' = [pc EXCEPT !["closer"] = "C_dead"]
-          /\ UNCHANGED << Feed, Closes, CloseUnblocks, Netconf, errsClosed, 
-                          errsWait, doneWait, doneClosed, helperLive, 
-                          helperDone, exited, tClosed, tCloses, implLock, peer, 
-                          ncErrsWait, ncDoneWait, ncDoneClosed, ncExited, 
-                          closedOnce, panic, closeRet, rerr, n, force, 
-                          sawExited, k, gotErr >>
+          /\ UNCHANGED << Feed, Closes, CloseUnblocks, Netconf, HasOp, 
+                          errsClosed, errsWait, doneWait, doneClosed, 
+                          helperLive, helperDone, exited, tClosed, tCloses, 
+                          implLock, peer, ncErrsWait, ncDoneWait, ncDoneClosed, 
+                          ncExited, closedOnce, panic, closeRet, rerr, n, 
+                          force, sawExited, opEnd, gotErr >>
 
 C_tclose == /\ pc["closer"] = "C_tclose"
             /\ IF ~force
@@ -358,22 +374,23 @@ C_tclose == /\ pc["closer"] = "C_tclose"
             /\ tClosed' = TRUE
             /\ tCloses' = tCloses + 1
             /\ pc' = [pc EXCEPT !["closer"] = "C_ret"]
-            /\ UNCHANGED << Feed, Closes, CloseUnblocks, Netconf, errsClosed, 
-                            errsWait, doneWait, doneClosed, helperLive, 
-                            helperDone, exited, implLock, peer, ncErrsWait, 
-                            ncDoneWait, ncDoneClosed, ncExited, closedOnce, 
-                            panic, closeRet, rerr, n, force, sawExited, k, 
-                            gotErr >>
+            /\ UNCHANGED << Feed, Closes, CloseUnblocks, Netconf, HasOp, 
+                            errsClosed, errsWait, doneWait, doneClosed, 
+                            helperLive, helperDone, exited, implLock, peer, 
+                            ncErrsWait, ncDoneWait, ncDoneClosed, ncExited, 
+                            closedOnce, panic, closeRet, rerr, n, force, 
+                            sawExited, opEnd, gotErr >>
 
 C_ret == /\ pc["closer"] = "C_ret"
          /\ n' = n + 1
          /\ closeRet' = closeRet + 1
          /\ pc' = [pc EXCEPT !["closer"] = "C_loop"]
-         /\ UNCHANGED << Feed, Closes, CloseUnblocks, Netconf, errsClosed, 
-                         errsWait, doneWait, doneClosed, helperLive, 
-                         helperDone, exited, tClosed, tCloses, implLock, peer, 
-                         ncErrsWait, ncDoneWait, ncDoneClosed, ncExited, 
-                         closedOnce, panic, rerr, force, sawExited, k, gotErr >>
+         /\ UNCHANGED << Feed, Closes, CloseUnblocks, Netconf, HasOp, 
+                         errsClosed, errsWait, doneWait, doneClosed, 
+                         helperLive, helperDone, exited, tClosed, tCloses, 
+                         implLock, peer, ncErrsWait, ncDoneWait, ncDoneClosed, 
+                         ncExited, closedOnce, panic, rerr, force, sawExited, 
+                         opEnd, gotErr >>
 
 C_once == /\ pc["closer"] = "C_once"
           /\ IF closedOnce
@@ -381,12 +398,12 @@ C_once == /\ pc["closer"] = "C_once"
                      /\ UNCHANGED closedOnce
                 ELSE /\ closedOnce' = TRUE
                      /\ pc' = [pc EXCEPT !["closer"] = "NC1_done"]
-          /\ UNCHANGED << Feed, Closes, CloseUnblocks, Netconf, errsClosed, 
-                          errsWait, doneWait, doneClosed, helperLive, 
-                          helperDone, exited, tClosed, tCloses, implLock, peer, 
-                          ncErrsWait, ncDoneWait, ncDoneClosed, ncExited, 
-                          panic, closeRet, rerr, n, force, sawExited, k, 
-                          gotErr >>
+          /\ UNCHANGED << Feed, Closes, CloseUnblocks, Netconf, HasOp, 
+                          errsClosed, errsWait, doneWait, doneClosed, 
+                          helperLive, helperDone, exited, tClosed, tCloses, 
+                          implLock, peer, ncErrsWait, ncDoneWait, ncDoneClosed, 
+                          ncExited, panic, closeRet, rerr, n, force, sawExited, 
+                          opEnd, gotErr >>
 
 NC1_done == /\ pc["closer"] = "NC1_done"
             /\ IF Netconf
@@ -394,34 +411,34 @@ NC1_done == /\ pc["closer"] = "NC1_done"
                   ELSE /\ TRUE
                        /\ UNCHANGED ncDoneClosed
             /\ pc' = [pc EXCEPT !["closer"] = "C_done"]
-            /\ UNCHANGED << Feed, Closes, CloseUnblocks, Netconf, errsClosed, 
-                            errsWait, doneWait, doneClosed, helperLive, 
-                            helperDone, exited, tClosed, tCloses, implLock, 
-                            peer, ncErrsWait, ncDoneWait, ncExited, closedOnce, 
-                            panic, closeRet, rerr, n, force, sawExited, k, 
-                            gotErr >>
+            /\ UNCHANGED << Feed, Closes, CloseUnblocks, Netconf, HasOp, 
+                            errsClosed, errsWait, doneWait, doneClosed, 
+                            helperLive, helperDone, exited, tClosed, tCloses, 
+                            implLock, peer, ncErrsWait, ncDoneWait, ncExited, 
+                            closedOnce, panic, closeRet, rerr, n, force, 
+                            sawExited, opEnd, gotErr >>
 
 C_done == /\ pc["closer"] = "C_done"
           /\ doneClosed' = TRUE
           /\ pc' = [pc EXCEPT !["closer"] = "C1_wait"]
-          /\ UNCHANGED << Feed, Closes, CloseUnblocks, Netconf, errsClosed, 
-                          errsWait, doneWait, helperLive, helperDone, exited, 
-                          tClosed, tCloses, implLock, peer, ncErrsWait, 
-                          ncDoneWait, ncDoneClosed, ncExited, closedOnce, 
-                          panic, closeRet, rerr, n, force, sawExited, k, 
-                          gotErr >>
+          /\ UNCHANGED << Feed, Closes, CloseUnblocks, Netconf, HasOp, 
+                          errsClosed, errsWait, doneWait, helperLive, 
+                          helperDone, exited, tClosed, tCloses, implLock, peer, 
+                          ncErrsWait, ncDoneWait, ncDoneClosed, ncExited, 
+                          closedOnce, panic, closeRet, rerr, n, force, 
+                          sawExited, opEnd, gotErr >>
 
 C1_wait == /\ pc["closer"] = "C1_wait"
            /\ \/ /\ exited
                  /\ force' = FALSE
               \/ /\ force' = TRUE
            /\ pc' = [pc EXCEPT !["closer"] = "C_tclose"]
-           /\ UNCHANGED << Feed, Closes, CloseUnblocks, Netconf, errsClosed, 
-                           errsWait, doneWait, doneClosed, helperLive, 
-                           helperDone, exited, tClosed, tCloses, implLock, 
-                           peer, ncErrsWait, ncDoneWait, ncDoneClosed, 
-                           ncExited, closedOnce, panic, closeRet, rerr, n, 
-                           sawExited, k, gotErr >>
+           /\ UNCHANGED << Feed, Closes, CloseUnblocks, Netconf, HasOp, 
+                           errsClosed, errsWait, doneWait, doneClosed, 
+                           helperLive, helperDone, exited, tClosed, tCloses, 
+                           implLock, peer, ncErrsWait, ncDoneWait, 
+                           ncDoneClosed, ncExited, closedOnce, panic, closeRet, 
+                           rerr, n, sawExited, opEnd, gotErr >>
 
 C_errs == /\ pc["closer"] = "C_errs"
           /\ IF errsClosed
@@ -431,21 +448,22 @@ C_errs == /\ pc["closer"] = "C_errs"
                 ELSE /\ errsClosed' = TRUE
                      /\ pc' = [pc EXCEPT !["closer"] = "C_flag"]
                      /\ panic' = panic
-          /\ UNCHANGED << Feed, Closes, CloseUnblocks, Netconf, errsWait, 
-                          doneWait, doneClosed, helperLive, helperDone, exited, 
-                          tClosed, tCloses, implLock, peer, ncErrsWait, 
-                          ncDoneWait, ncDoneClosed, ncExited, closedOnce, 
-                          closeRet, rerr, n, force, sawExited, k, gotErr >>
+          /\ UNCHANGED << Feed, Closes, CloseUnblocks, Netconf, HasOp, 
+                          errsWait, doneWait, doneClosed, helperLive, 
+                          helperDone, exited, tClosed, tCloses, implLock, peer, 
+                          ncErrsWait, ncDoneWait, ncDoneClosed, ncExited, 
+                          closedOnce, closeRet, rerr, n, force, sawExited, 
+                          opEnd, gotErr >>
 
 C_flag == /\ pc["closer"] = "C_flag"
           /\ sawExited' = exited
           /\ pc' = [pc EXCEPT !["closer"] = "C_help"]
-          /\ UNCHANGED << Feed, Closes, CloseUnblocks, Netconf, errsClosed, 
-                          errsWait, doneWait, doneClosed, helperLive, 
-                          helperDone, exited, tClosed, tCloses, implLock, peer, 
-                          ncErrsWait, ncDoneWait, ncDoneClosed, ncExited, 
-                          closedOnce, panic, closeRet, rerr, n, force, k, 
-                          gotErr >>
+          /\ UNCHANGED << Feed, Closes, CloseUnblocks, Netconf, HasOp, 
+                          errsClosed, errsWait, doneWait, doneClosed, 
+                          helperLive, helperDone, exited, tClosed, tCloses, 
+                          implLock, peer, ncErrsWait, ncDoneWait, ncDoneClosed, 
+                          ncExited, closedOnce, panic, closeRet, rerr, n, 
+                          force, opEnd, gotErr >>
 
 C_help == /\ pc["closer"] = "C_help"
           /\ IF ~sawExited
@@ -454,53 +472,54 @@ C_help == /\ pc["closer"] = "C_help"
                 ELSE /\ helperDone' = TRUE
                      /\ UNCHANGED helperLive
           /\ pc' = [pc EXCEPT !["closer"] = "C_wait"]
-          /\ UNCHANGED << Feed, Closes, CloseUnblocks, Netconf, errsClosed, 
-                          errsWait, doneWait, doneClosed, exited, tClosed, 
-                          tCloses, implLock, peer, ncErrsWait, ncDoneWait, 
-                          ncDoneClosed, ncExited, closedOnce, panic, closeRet, 
-                          rerr, n, force, sawExited, k, gotErr >>
+          /\ UNCHANGED << Feed, Closes, CloseUnblocks, Netconf, HasOp, 
+                          errsClosed, errsWait, doneWait, doneClosed, exited, 
+                          tClosed, tCloses, implLock, peer, ncErrsWait, 
+                          ncDoneWait, ncDoneClosed, ncExited, closedOnce, 
+                          panic, closeRet, rerr, n, force, sawExited, opEnd, 
+                          gotErr >>
 
 C_wait == /\ pc["closer"] = "C_wait"
           /\ \/ /\ helperDone
                 /\ force' = FALSE
              \/ /\ force' = TRUE
           /\ pc' = [pc EXCEPT !["closer"] = "C_tclose"]
-          /\ UNCHANGED << Feed, Closes, CloseUnblocks, Netconf, errsClosed, 
-                          errsWait, doneWait, doneClosed, helperLive, 
-                          helperDone, exited, tClosed, tCloses, implLock, peer, 
-                          ncErrsWait, ncDoneWait, ncDoneClosed, ncExited, 
-                          closedOnce, panic, closeRet, rerr, n, sawExited, k, 
-                          gotErr >>
+          /\ UNCHANGED << Feed, Closes, CloseUnblocks, Netconf, HasOp, 
+                          errsClosed, errsWait, doneWait, doneClosed, 
+                          helperLive, helperDone, exited, tClosed, tCloses, 
+                          implLock, peer, ncErrsWait, ncDoneWait, ncDoneClosed, 
+                          ncExited, closedOnce, panic, closeRet, rerr, n, 
+                          sawExited, opEnd, gotErr >>
 
 NC_done == /\ pc["closer"] = "NC_done"
            /\ ncDoneWait' = TRUE
            /\ pc' = [pc EXCEPT !["closer"] = "NC_wait"]
-           /\ UNCHANGED << Feed, Closes, CloseUnblocks, Netconf, errsClosed, 
-                           errsWait, doneWait, doneClosed, helperLive, 
-                           helperDone, exited, tClosed, tCloses, implLock, 
-                           peer, ncErrsWait, ncDoneClosed, ncExited, 
+           /\ UNCHANGED << Feed, Closes, CloseUnblocks, Netconf, HasOp, 
+                           errsClosed, errsWait, doneWait, doneClosed, 
+                           helperLive, helperDone, exited, tClosed, tCloses, 
+                           implLock, peer, ncErrsWait, ncDoneClosed, ncExited, 
                            closedOnce, panic, closeRet, rerr, n, force, 
-                           sawExited, k, gotErr >>
+                           sawExited, opEnd, gotErr >>
 
 NC_wait == /\ pc["closer"] = "NC_wait"
            /\ ~ncDoneWait
            /\ pc' = [pc EXCEPT !["closer"] = "C_errs"]
-           /\ UNCHANGED << Feed, Closes, CloseUnblocks, Netconf, errsClosed, 
-                           errsWait, doneWait, doneClosed, helperLive, 
-                           helperDone, exited, tClosed, tCloses, implLock, 
-                           peer, ncErrsWait, ncDoneWait, ncDoneClosed, 
-                           ncExited, closedOnce, panic, closeRet, rerr, n, 
-                           force, sawExited, k, gotErr >>
+           /\ UNCHANGED << Feed, Closes, CloseUnblocks, Netconf, HasOp, 
+                           errsClosed, errsWait, doneWait, doneClosed, 
+                           helperLive, helperDone, exited, tClosed, tCloses, 
+                           implLock, peer, ncErrsWait, ncDoneWait, 
+                           ncDoneClosed, ncExited, closedOnce, panic, closeRet, 
+                           rerr, n, force, sawExited, opEnd, gotErr >>
 
 C_dead == /\ pc["closer"] = "C_dead"
           /\ TRUE
           /\ pc' = [pc EXCEPT !["closer"] = "Done"]
-          /\ UNCHANGED << Feed, Closes, CloseUnblocks, Netconf, errsClosed, 
-                          errsWait, doneWait, doneClosed, helperLive, 
-                          helperDone, exited, tClosed, tCloses, implLock, peer, 
-                          ncErrsWait, ncDoneWait, ncDoneClosed, ncExited, 
-                          closedOnce, panic, closeRet, rerr, n, force, 
-                          sawExited, k, gotErr >>
+          /\ UNCHANGED << Feed, Closes, CloseUnblocks, Netconf, HasOp, 
+                          errsClosed, errsWait, doneWait, doneClosed, 
+                          helperLive, helperDone, exited, tClosed, tCloses, 
+                          implLock, peer, ncErrsWait, ncDoneWait, ncDoneClosed, 
+                          ncExited, closedOnce, panic, closeRet, rerr, n, 
+                          force, sawExited, opEnd, gotErr >>
 
 Closer == C_loop \/ C_tclose \/ C_ret \/ C_once \/ NC1_done \/ C_done
              \/ C1_wait \/ C_errs \/ C_flag \/ C_help \/ C_wait \/ NC_done
@@ -511,70 +530,90 @@ H_idle == /\ pc["helper"] = "H_idle"
           /\ IF helperLive /\ ~V1
                 THEN /\ pc' = [pc EXCEPT !["helper"] = "H_send"]
                 ELSE /\ pc' = [pc EXCEPT !["helper"] = "Done"]
-          /\ UNCHANGED << Feed, Closes, CloseUnblocks, Netconf, errsClosed, 
-                          errsWait, doneWait, doneClosed, helperLive, 
-                          helperDone, exited, tClosed, tCloses, implLock, peer, 
-                          ncErrsWait, ncDoneWait, ncDoneClosed, ncExited, 
-                          closedOnce, panic, closeRet, rerr, n, force, 
-                          sawExited, k, gotErr >>
+          /\ UNCHANGED << Feed, Closes, CloseUnblocks, Netconf, HasOp, 
+                          errsClosed, errsWait, doneWait, doneClosed, 
+                          helperLive, helperDone, exited, tClosed, tCloses, 
+                          implLock, peer, ncErrsWait, ncDoneWait, ncDoneClosed, 
+                          ncExited, closedOnce, panic, closeRet, rerr, n, 
+                          force, sawExited, opEnd, gotErr >>
 
 H_send == /\ pc["helper"] = "H_send"
           /\ doneWait' = TRUE
           /\ pc' = [pc EXCEPT !["helper"] = "H_wait"]
-          /\ UNCHANGED << Feed, Closes, CloseUnblocks, Netconf, errsClosed, 
-                          errsWait, doneClosed, helperLive, helperDone, exited, 
-                          tClosed, tCloses, implLock, peer, ncErrsWait, 
-                          ncDoneWait, ncDoneClosed, ncExited, closedOnce, 
-                          panic, closeRet, rerr, n, force, sawExited, k, 
-                          gotErr >>
+          /\ UNCHANGED << Feed, Closes, CloseUnblocks, Netconf, HasOp, 
+                          errsClosed, errsWait, doneClosed, helperLive, 
+                          helperDone, exited, tClosed, tCloses, implLock, peer, 
+                          ncErrsWait, ncDoneWait, ncDoneClosed, ncExited, 
+                          closedOnce, panic, closeRet, rerr, n, force, 
+                          sawExited, opEnd, gotErr >>
 
 H_wait == /\ pc["helper"] = "H_wait"
           /\ ~doneWait
           /\ pc' = [pc EXCEPT !["helper"] = "Done"]
-          /\ UNCHANGED << Feed, Closes, CloseUnblocks, Netconf, errsClosed, 
-                          errsWait, doneWait, doneClosed, helperLive, 
-                          helperDone, exited, tClosed, tCloses, implLock, peer, 
-                          ncErrsWait, ncDoneWait, ncDoneClosed, ncExited, 
-                          closedOnce, panic, closeRet, rerr, n, force, 
-                          sawExited, k, gotErr >>
+          /\ UNCHANGED << Feed, Closes, CloseUnblocks, Netconf, HasOp, 
+                          errsClosed, errsWait, doneWait, doneClosed, 
+                          helperLive, helperDone, exited, tClosed, tCloses, 
+                          implLock, peer, ncErrsWait, ncDoneWait, ncDoneClosed, 
+                          ncExited, closedOnce, panic, closeRet, rerr, n, 
+                          force, sawExited, opEnd, gotErr >>
 
 Helper == H_idle \/ H_send \/ H_wait
 
 O_loop == /\ pc["op"] = "O_loop"
-          /\ IF k < OpReads /\ ~Netconf
+          /\ IF HasOp /\ ~Netconf /\ ~opEnd
                 THEN /\ pc' = [pc EXCEPT !["op"] = "O_errs"]
                 ELSE /\ pc' = [pc EXCEPT !["op"] = "Done"]
-          /\ UNCHANGED << Feed, Closes, CloseUnblocks, Netconf, errsClosed, 
-                          errsWait, doneWait, doneClosed, helperLive, 
-                          helperDone, exited, tClosed, tCloses, implLock, peer, 
-                          ncErrsWait, ncDoneWait, ncDoneClosed, ncExited, 
-                          closedOnce, panic, closeRet, rerr, n, force, 
-                          sawExited, k, gotErr >>
+          /\ UNCHANGED << Feed, Closes, CloseUnblocks, Netconf, HasOp, 
+                          errsClosed, errsWait, doneWait, doneClosed, 
+                          helperLive, helperDone, exited, tClosed, tCloses, 
+                          implLock, peer, ncErrsWait, ncDoneWait, ncDoneClosed, 
+                          ncExited, closedOnce, panic, closeRet, rerr, n, 
+                          force, sawExited, opEnd, gotErr >>
 
 O_errs == /\ pc["op"] = "O_errs"
           /\ IF errsWait
                 THEN /\ errsWait' = FALSE
+                     /\ opEnd' = TRUE
                 ELSE /\ TRUE
-                     /\ UNCHANGED errsWait
+                     /\ UNCHANGED << errsWait, opEnd >>
           /\ pc' = [pc EXCEPT !["op"] = "O_flag"]
-          /\ UNCHANGED << Feed, Closes, CloseUnblocks, Netconf, errsClosed, 
-                          doneWait, doneClosed, helperLive, helperDone, exited, 
-                          tClosed, tCloses, implLock, peer, ncErrsWait, 
-                          ncDoneWait, ncDoneClosed, ncExited, closedOnce, 
-                          panic, closeRet, rerr, n, force, sawExited, k, 
-                          gotErr >>
-
-O_flag == /\ pc["op"] = "O_flag"
-          /\ k' = k + 1
-          /\ pc' = [pc EXCEPT !["op"] = "O_loop"]
-          /\ UNCHANGED << Feed, Closes, CloseUnblocks, Netconf, errsClosed, 
-                          errsWait, doneWait, doneClosed, helperLive, 
+          /\ UNCHANGED << Feed, Closes, CloseUnblocks, Netconf, HasOp, 
+                          errsClosed, doneWait, doneClosed, helperLive, 
                           helperDone, exited, tClosed, tCloses, implLock, peer, 
                           ncErrsWait, ncDoneWait, ncDoneClosed, ncExited, 
                           closedOnce, panic, closeRet, rerr, n, force, 
                           sawExited, gotErr >>
 
+O_flag == /\ pc["op"] = "O_flag"
+          /\ IF ~opEnd /\ (exited \/ (V2 /\ doneClosed))
+                THEN /\ opEnd' = TRUE
+                ELSE /\ TRUE
+                     /\ opEnd' = opEnd
+          /\ pc' = [pc EXCEPT !["op"] = "O_loop"]
+          /\ UNCHANGED << Feed, Closes, CloseUnblocks, Netconf, HasOp, 
+                          errsClosed, errsWait, doneWait, doneClosed, 
+                          helperLive, helperDone, exited, tClosed, tCloses, 
+                          implLock, peer, ncErrsWait, ncDoneWait, ncDoneClosed, 
+                          ncExited, closedOnce, panic, closeRet, rerr, n, 
+                          force, sawExited, gotErr >>
+
 Op == O_loop \/ O_errs \/ O_flag
+
+NO_wait == /\ pc["ncop"] = "NO_wait"
+           /\ ~(HasOp /\ Netconf) \/ ncErrsWait \/ (V2 /\ ncDoneClosed)
+           /\ IF HasOp /\ Netconf /\ ncErrsWait
+                 THEN /\ ncErrsWait' = FALSE
+                 ELSE /\ TRUE
+                      /\ UNCHANGED ncErrsWait
+           /\ pc' = [pc EXCEPT !["ncop"] = "Done"]
+           /\ UNCHANGED << Feed, Closes, CloseUnblocks, Netconf, HasOp, 
+                           errsClosed, errsWait, doneWait, doneClosed, 
+                           helperLive, helperDone, exited, tClosed, tCloses, 
+                           implLock, peer, ncDoneWait, ncDoneClosed, ncExited, 
+                           closedOnce, panic, closeRet, rerr, n, force, 
+                           sawExited, opEnd, gotErr >>
+
+NcOp == NO_wait
 
 N_top == /\ pc["ncreader"] = "N_top"
          /\ IF Netconf
@@ -588,11 +627,12 @@ N_top == /\ pc["ncreader"] = "N_top"
                                           /\ UNCHANGED ncDoneWait
                ELSE /\ pc' = [pc EXCEPT !["ncreader"] = "N_exit"]
                     /\ UNCHANGED ncDoneWait
-         /\ UNCHANGED << Feed, Closes, CloseUnblocks, Netconf, errsClosed, 
-                         errsWait, doneWait, doneClosed, helperLive, 
-                         helperDone, exited, tClosed, tCloses, implLock, peer, 
-                         ncErrsWait, ncDoneClosed, ncExited, closedOnce, panic, 
-                         closeRet, rerr, n, force, sawExited, k, gotErr >>
+         /\ UNCHANGED << Feed, Closes, CloseUnblocks, Netconf, HasOp, 
+                         errsClosed, errsWait, doneWait, doneClosed, 
+                         helperLive, helperDone, exited, tClosed, tCloses, 
+                         implLock, peer, ncErrsWait, ncDoneClosed, ncExited, 
+                         closedOnce, panic, closeRet, rerr, n, force, 
+                         sawExited, opEnd, gotErr >>
 
 N_read == /\ pc["ncreader"] = "N_read"
           /\ IF errsWait
@@ -603,11 +643,12 @@ N_read == /\ pc["ncreader"] = "N_read"
                            ELSE /\ gotErr' = exited
                      /\ UNCHANGED errsWait
           /\ pc' = [pc EXCEPT !["ncreader"] = "N_send"]
-          /\ UNCHANGED << Feed, Closes, CloseUnblocks, Netconf, errsClosed, 
-                          doneWait, doneClosed, helperLive, helperDone, exited, 
-                          tClosed, tCloses, implLock, peer, ncErrsWait, 
-                          ncDoneWait, ncDoneClosed, ncExited, closedOnce, 
-                          panic, closeRet, rerr, n, force, sawExited, k >>
+          /\ UNCHANGED << Feed, Closes, CloseUnblocks, Netconf, HasOp, 
+                          errsClosed, doneWait, doneClosed, helperLive, 
+                          helperDone, exited, tClosed, tCloses, implLock, peer, 
+                          ncErrsWait, ncDoneWait, ncDoneClosed, ncExited, 
+                          closedOnce, panic, closeRet, rerr, n, force, 
+                          sawExited, opEnd >>
 
 N_send == /\ pc["ncreader"] = "N_send"
           /\ IF gotErr
@@ -615,12 +656,12 @@ N_send == /\ pc["ncreader"] = "N_send"
                      /\ pc' = [pc EXCEPT !["ncreader"] = "N_sent"]
                 ELSE /\ pc' = [pc EXCEPT !["ncreader"] = "N_top"]
                      /\ UNCHANGED ncErrsWait
-          /\ UNCHANGED << Feed, Closes, CloseUnblocks, Netconf, errsClosed, 
-                          errsWait, doneWait, doneClosed, helperLive, 
-                          helperDone, exited, tClosed, tCloses, implLock, peer, 
-                          ncDoneWait, ncDoneClosed, ncExited, closedOnce, 
-                          panic, closeRet, rerr, n, force, sawExited, k, 
-                          gotErr >>
+          /\ UNCHANGED << Feed, Closes, CloseUnblocks, Netconf, HasOp, 
+                          errsClosed, errsWait, doneWait, doneClosed, 
+                          helperLive, helperDone, exited, tClosed, tCloses, 
+                          implLock, peer, ncDoneWait, ncDoneClosed, ncExited, 
+                          closedOnce, panic, closeRet, rerr, n, force, 
+                          sawExited, opEnd, gotErr >>
 
 N_sent == /\ pc["ncreader"] = "N_sent"
           /\ ~ncErrsWait \/ (V1 /\ ncDoneClosed)
@@ -629,22 +670,22 @@ N_sent == /\ pc["ncreader"] = "N_sent"
                      /\ pc' = [pc EXCEPT !["ncreader"] = "N_exit"]
                 ELSE /\ pc' = [pc EXCEPT !["ncreader"] = "N_top"]
                      /\ UNCHANGED ncErrsWait
-          /\ UNCHANGED << Feed, Closes, CloseUnblocks, Netconf, errsClosed, 
-                          errsWait, doneWait, doneClosed, helperLive, 
-                          helperDone, exited, tClosed, tCloses, implLock, peer, 
-                          ncDoneWait, ncDoneClosed, ncExited, closedOnce, 
-                          panic, closeRet, rerr, n, force, sawExited, k, 
-                          gotErr >>
+          /\ UNCHANGED << Feed, Closes, CloseUnblocks, Netconf, HasOp, 
+                          errsClosed, errsWait, doneWait, doneClosed, 
+                          helperLive, helperDone, exited, tClosed, tCloses, 
+                          implLock, peer, ncDoneWait, ncDoneClosed, ncExited, 
+                          closedOnce, panic, closeRet, rerr, n, force, 
+                          sawExited, opEnd, gotErr >>
 
 N_exit == /\ pc["ncreader"] = "N_exit"
           /\ ncExited' = TRUE
           /\ pc' = [pc EXCEPT !["ncreader"] = "Done"]
-          /\ UNCHANGED << Feed, Closes, CloseUnblocks, Netconf, errsClosed, 
-                          errsWait, doneWait, doneClosed, helperLive, 
-                          helperDone, exited, tClosed, tCloses, implLock, peer, 
-                          ncErrsWait, ncDoneWait, ncDoneClosed, closedOnce, 
-                          panic, closeRet, rerr, n, force, sawExited, k, 
-                          gotErr >>
+          /\ UNCHANGED << Feed, Closes, CloseUnblocks, Netconf, HasOp, 
+                          errsClosed, errsWait, doneWait, doneClosed, 
+                          helperLive, helperDone, exited, tClosed, tCloses, 
+                          implLock, peer, ncErrsWait, ncDoneWait, ncDoneClosed, 
+                          closedOnce, panic, closeRet, rerr, n, force, 
+                          sawExited, opEnd, gotErr >>
 
 NcReader == N_top \/ N_read \/ N_send \/ N_sent \/ N_exit
 
@@ -652,7 +693,7 @@ NcReader == N_top \/ N_read \/ N_send \/ N_sent \/ N_exit
 Terminating == /\ \A self \in ProcSet: pc[self] = "Done"
                /\ UNCHANGED vars
 
-Next == Reader \/ Closer \/ Helper \/ Op \/ NcReader
+Next == Reader \/ Closer \/ Helper \/ Op \/ NcOp \/ NcReader
            \/ Terminating
 
 Spec == /\ Init /\ [][Next]_vars
@@ -660,6 +701,7 @@ Spec == /\ Init /\ [][Next]_vars
         /\ WF_vars(Closer)
         /\ WF_vars(Helper)
         /\ WF_vars(Op)
+        /\ WF_vars(NcOp)
         /\ WF_vars(NcReader)
 
 Termination == <>(\A self \in ProcSet: pc[self] = "Done")
@@ -674,4 +716,6 @@ NoLeak == <>[](closeRet = Closes => (/\ ReaderGone
                                       /\ pc["helper"] = "Done"
                                       /\ (Netconf => pc["ncreader"] = "Done")))
 TransportClosed == [](closeRet = Closes => tClosed)
+\* an operation that was in flight ends with the close (it does not live on until its own timer fires)
+OpEnds == <>[](closeRet = Closes => (pc["op"] = "Done" /\ pc["ncop"] = "Done"))
 =============================================================================
